@@ -181,21 +181,27 @@ example : readPolyVec toyF .processed (writePolyVec toyF [[1, 2], [], [3]] ++ [9
   rfl
 
 /-- `pk_roundtrip`: `ProvingKey::read ∘ ProvingKey::write` returns the stored part (verifying
-key, fixed columns, permutation polynomials) unchanged, for compatible formats. -/
+key, fixed columns, permutation polynomials) unchanged, for compatible formats, for every key
+whose polynomial lists fit the circuit (one fixed column of `2^k` values per fixed commitment,
+one permutation polynomial of `2^k` values per permutation column — what `keygen_pk` builds and
+what `ProvingKey::read` now insists on, see `pk_read_counts_checked`). -/
 theorem pk_roundtrip (c : Codec P) (hc : c.Lawful) (fc : FCodec F) (hfc : fc.Lawful) (v : UInt8)
     (fa fb : Format) (hcompat : fa.compat fb = true) (sh : Shape) (pk : PKStored P F) (rest : Bytes)
     (hk : pk.vk.k ≤ sh.S) (hk8 : pk.vk.k < 256) (hext : extendedK pk.vk.k (sh.degree - 1) ≤ sh.S)
     (hf : pk.vk.fixed.length = sh.nFixed) (hp : pk.vk.perm.length = sh.nPerm) (h32 : sh.nFixed < 2 ^ 32)
     (hn1 : pk.fixedValues.length < 2 ^ 32) (hl1 : ∀ p ∈ pk.fixedValues, p.length < 2 ^ 32)
-    (hn2 : pk.permutations.length < 2 ^ 32) (hl2 : ∀ p ∈ pk.permutations, p.length < 2 ^ 32) :
+    (hn2 : pk.permutations.length < 2 ^ 32) (hl2 : ∀ p ∈ pk.permutations, p.length < 2 ^ 32)
+    (hfit1 : polysFit (2 ^ pk.vk.k) pk.vk.fixed.length pk.fixedValues = true)
+    (hfit2 : polysFit (2 ^ pk.vk.k) sh.nPerm pk.permutations = true) :
     readPK c fc v fb sh (writePK c fc v fa pk ++ rest) = .ok (pk, rest) := by
   unfold readPK writePK
   rw [List.append_assoc, List.append_assoc,
     vk_roundtrip c hc v fa fb hcompat sh pk.vk _ hk hk8 hext hf hp h32]
   simp only []
   rw [readPolyVec_write fc hfc fb _ hn1 hl1]
-  simp only []
+  simp only [hfit1, Bool.not_true, Bool.false_eq_true, if_false]
   rw [readPolyVec_write fc hfc fb _ hn2 hl2]
+  simp only [hfit2, Bool.not_true, Bool.false_eq_true, if_false]
 
 /-- `pk_roundtrip_equiv`: everything else in a proving key (`l0`, `l_last`, `l_active_row`, the
 coefficient and extended forms of the fixed columns and of the permutation polynomials, the
@@ -211,14 +217,68 @@ theorem pk_roundtrip_equiv {X : Type} (c : Codec P) (hc : c.Lawful) (fc : FCodec
     (hf : full.stored.vk.fixed.length = sh.nFixed) (hp : full.stored.vk.perm.length = sh.nPerm)
     (h32 : sh.nFixed < 2 ^ 32)
     (hn1 : full.stored.fixedValues.length < 2 ^ 32) (hl1 : ∀ p ∈ full.stored.fixedValues, p.length < 2 ^ 32)
-    (hn2 : full.stored.permutations.length < 2 ^ 32) (hl2 : ∀ p ∈ full.stored.permutations, p.length < 2 ^ 32) :
+    (hn2 : full.stored.permutations.length < 2 ^ 32) (hl2 : ∀ p ∈ full.stored.permutations, p.length < 2 ^ 32)
+    (hfit1 : polysFit (2 ^ full.stored.vk.k) full.stored.vk.fixed.length full.stored.fixedValues = true)
+    (hfit2 : polysFit (2 ^ full.stored.vk.k) sh.nPerm full.stored.permutations = true) :
     (readPK c fc v fb sh (writePK c fc v fa full.stored)).map (fun r => derivePK toCoeff toExt lag r.1)
       = .ok full := by
-  have h := pk_roundtrip c hc fc hfc v fa fb hcompat sh full.stored [] hk hk8 hext hf hp h32 hn1 hl1 hn2 hl2
+  have h := pk_roundtrip c hc fc hfc v fa fb hcompat sh full.stored [] hk hk8 hext hf hp h32 hn1 hl1 hn2 hl2 hfit1 hfit2
   rw [List.append_nil] at h
   rw [h]
   simp only [Except.map]
   rw [← hwf]
+
+/-- `pk_read_counts_checked`: whenever `ProvingKey::read` succeeds — on ANY bytes, written by
+anyone, in any format — the key it returns has exactly one fixed column per fixed commitment of
+its verifying key and exactly one permutation polynomial per permutation column of the circuit,
+each of exactly `2^k` values. Hence `compute_polys_and_cosets` never indexes past the list
+(no `index out of bounds`), `lagrange_to_coeff` never meets a vector of another length (no
+failed assertion), and no surplus polynomial survives into the re-serialised key. (Before the
+repair — /repo commit c2433f0 — the counts and lengths were taken from the file unchecked.) -/
+theorem pk_read_counts_checked (c : Codec P) (fc : FCodec F) (v : UInt8) (fmt : Format) (sh : Shape)
+    (bs r : Bytes) (pk : PKStored P F) (h : readPK c fc v fmt sh bs = .ok (pk, r)) :
+    pk.fixedValues.length = pk.vk.fixed.length ∧ pk.vk.fixed.length = sh.nFixed ∧
+    pk.permutations.length = sh.nPerm ∧
+    (∀ p ∈ pk.fixedValues, p.length = 2 ^ pk.vk.k) ∧ (∀ p ∈ pk.permutations, p.length = 2 ^ pk.vk.k) := by
+  unfold readPK at h
+  split at h
+  · cases h
+  · next vk r1 hvk =>
+    have hv := (readVK_consumes c v fmt sh hvk).2.1
+    split at h
+    · cases h
+    · next fv r2 _ =>
+      split at h
+      · cases h
+      · next h1 =>
+        split at h
+        · cases h
+        · next pm r3 _ =>
+          split at h
+          · cases h
+          · next h2 =>
+            simp only [Except.ok.injEq, Prod.mk.injEq] at h
+            obtain ⟨rfl, _⟩ := h
+            have f1 : polysFit (2 ^ vk.k) vk.fixed.length fv = true := by
+              cases hh : polysFit (2 ^ vk.k) vk.fixed.length fv
+              · rw [hh] at h1; exact absurd rfl h1
+              · rfl
+            have f2 : polysFit (2 ^ vk.k) sh.nPerm pm = true := by
+              cases hh : polysFit (2 ^ vk.k) sh.nPerm pm
+              · rw [hh] at h2; exact absurd rfl h2
+              · rfl
+            simp only [polysFit, Bool.and_eq_true, beq_iff_eq, List.all_eq_true] at f1 f2
+            exact ⟨f1.1, hv, f2.1, f1.2, f2.2⟩
+
+example : readPK toyCodec toyF 3 .rawBytes ⟨1, 1, 3, 32⟩
+    (writePK toyCodec toyF 3 .rawBytes ⟨⟨1, [7], [9]⟩, [[1, 2]], []⟩) = .error .shape := by rfl
+
+example : readPK toyCodec toyF 3 .rawBytes ⟨1, 1, 3, 32⟩
+    (writePK toyCodec toyF 3 .rawBytes ⟨⟨1, [7], [9]⟩, [[1, 2]], [[4, 5, 6]]⟩) = .error .shape := by rfl
+
+example : readPK toyCodec toyF 3 .rawBytes ⟨1, 1, 3, 32⟩
+    (writePK toyCodec toyF 3 .rawBytes ⟨⟨1, [7], [9]⟩, [[1, 2]], [[4, 5]]⟩) = .ok (⟨⟨1, [7], [9]⟩, [[1, 2]], [[4, 5]]⟩, []) := by
+  rfl
 
 /-! ## The standard library's key wrappers -/
 
@@ -277,14 +337,16 @@ theorem mpk_roundtrip {R : Type} (c : Codec P) (hc : c.Lawful) (fc : FCodec F) (
     (hf : m.pk.vk.fixed.length = (shapeOfRel m.relation).nFixed)
     (hp : m.pk.vk.perm.length = (shapeOfRel m.relation).nPerm) (h32 : (shapeOfRel m.relation).nFixed < 2 ^ 32)
     (hn1 : m.pk.fixedValues.length < 2 ^ 32) (hl1 : ∀ p ∈ m.pk.fixedValues, p.length < 2 ^ 32)
-    (hn2 : m.pk.permutations.length < 2 ^ 32) (hl2 : ∀ p ∈ m.pk.permutations, p.length < 2 ^ 32) :
+    (hn2 : m.pk.permutations.length < 2 ^ 32) (hl2 : ∀ p ∈ m.pk.permutations, p.length < 2 ^ 32)
+    (hfit1 : polysFit (2 ^ m.pk.vk.k) m.pk.vk.fixed.length m.pk.fixedValues = true)
+    (hfit2 : polysFit (2 ^ m.pk.vk.k) (shapeOfRel m.relation).nPerm m.pk.permutations = true) :
     readMPK c fc readRel v fb shapeOfRel (writeMPK c fc writeRel v fa m ++ rest) = .ok (m, rest) := by
   have b1 : (byteOf m.maxBitLen).toNat = m.maxBitLen := by rw [byteOf_toNat]; omega
   have b2 : (byteOf m.k).toNat = m.k := by rw [byteOf_toNat]; omega
   have e1 : ∀ (x : UInt8) (t : Bytes), readExact 1 (x :: t) = .ok ([x], t) := by intro x t; simp [readExact]
   unfold readMPK writeMPK
   simp only [List.append_assoc, List.cons_append, List.nil_append, e1, hrel]
-  rw [pk_roundtrip c hc fc hfc v fa fb hcompat _ m.pk rest hk hk8 hext hf hp h32 hn1 hl1 hn2 hl2]
+  rw [pk_roundtrip c hc fc hfc v fa fb hcompat _ m.pk rest hk hk8 hext hf hp h32 hn1 hl1 hn2 hl2 hfit1 hfit2]
   simp [b1, b2]
 
 /-! ## Transcript identity -/
@@ -628,11 +690,13 @@ theorem pk_full_roundtrip (c : Codec P) (hc : c.Lawful) (fc : FCodec F) (hfc : f
     (hk : st.vk.k ≤ sh.S) (hk8 : st.vk.k < 256) (hext : extendedK st.vk.k (sh.degree - 1) ≤ sh.S)
     (hf : st.vk.fixed.length = sh.nFixed) (hp : st.vk.perm.length = sh.nPerm) (h32 : sh.nFixed < 2 ^ 32)
     (hn1 : st.fixedValues.length < 2 ^ 32) (hl1 : ∀ p ∈ st.fixedValues, p.length < 2 ^ 32)
-    (hn2 : st.permutations.length < 2 ^ 32) (hl2 : ∀ p ∈ st.permutations, p.length < 2 ^ 32) :
+    (hn2 : st.permutations.length < 2 ^ 32) (hl2 : ∀ p ∈ st.permutations, p.length < 2 ^ 32)
+    (hfit1 : polysFit (2 ^ st.vk.k) st.vk.fixed.length st.fixedValues = true)
+    (hfit2 : polysFit (2 ^ st.vk.k) sh.nPerm st.permutations = true) :
     (readPK c fc v fb sh (writePK c fc v fa st)).map (fun r =>
         (r.1, derivePKFull t' Gen.lagrReturn Gen.lagrDestructRead Gen.pkInitRead d bf sh.nPerm r.1))
       = .ok (st, derivePKFull t Gen.lagrReturn Gen.lagrDestructKeygen Gen.pkInitKeygen d bf sh.nPerm st) := by
-  have h := pk_roundtrip c hc fc hfc v fa fb hcompat sh st [] hk hk8 hext hf hp h32 hn1 hl1 hn2 hl2
+  have h := pk_roundtrip c hc fc hfc v fa fb hcompat sh st [] hk hk8 hext hf hp h32 hn1 hl1 hn2 hl2 hfit1 hfit2
   rw [List.append_nil] at h
   rw [h]
   simp only [Except.map]
